@@ -1,4 +1,6 @@
+pub mod names;
 pub mod problems;
+pub mod run;
 
 use mahf::{state::common::Populations, Individual, Problem, Random, State};
 
